@@ -212,6 +212,10 @@ func extractAuthorisedViaServerName(content []byte) (spec.ServerName, error) {
 		if err != nil {
 			return "", fmt.Errorf("failed to split authorised server: %w", err)
 		}
+		if serverName == "" {
+			// An empty server name would be taken for "no authorising server" by the caller.
+			return "", fmt.Errorf("authorised user %q has no server name", v.String())
+		}
 		return serverName, nil
 	}
 	return "", nil
